@@ -816,7 +816,7 @@ def strip_wrapper(ty, name):
         ty = ty[:m.start()] + ty[m.end():i - 1] + ty[i:]
 
 
-def gen_dbstruct(fields):
+def gen_dbstruct(fields, keep_inner=False):
     """T6: the FixtureDatabase struct regenerated from src/fixtures/mod.rs for the requested fields:
     Arc<..> and Mutex<..> wrappers stripped, type aliases expanded, AtomicU64 -> prelude shim."""
     src = open(os.path.join(REPO, 'src/fixtures/mod.rs'), encoding='utf-8').read()
@@ -839,8 +839,17 @@ def gen_dbstruct(fields):
         for _ in range(3):
             for a, b in aliases.items():
                 ty = re.sub(r'\b' + a + r'\b', re.sub(r'\s+', ' ', b), ty)
-        ty = strip_wrapper(ty, 'Arc')
-        ty = strip_wrapper(ty, 'Mutex')
+        if keep_inner:
+            # strip only the outermost Arc<..> / Arc<Mutex<..>>: inner Arc<T> values stay (prelude Arc shim)
+            mm = re.match(r'^Arc\s*<(.*)>$', ty)
+            if mm:
+                ty = mm.group(1).strip()
+            mm = re.match(r'^(?:std::sync::)?Mutex\s*<(.*)>$', ty)
+            if mm:
+                ty = mm.group(1).strip()
+        else:
+            ty = strip_wrapper(ty, 'Arc')
+            ty = strip_wrapper(ty, 'Mutex')
         ty = ty.replace('std::sync::atomic::AtomicU64', 'AtomicU64').replace('types::', '')
         out.append(f'    pub {f}: {ty},')
     out.append('}')
@@ -950,6 +959,7 @@ def gen_item(rel, kind, name, extra=''):
 ITEM_RE = re.compile(r'^[ \t]*//@item[ \t]+(\S+)[ \t]+(struct|const)[ \t]+(\w+)[ \t]*(.*)$', re.M)
 STUB_RE = re.compile(r'^[ \t]*//@stub[ \t]+(\w+)[ \t]+(\w+)[ \t]*$', re.M)
 DBSTRUCT_RE = re.compile(r'^[ \t]*//@dbstruct[ \t]+(.*)$', re.M)
+DBSTRUCT_ARC_RE = re.compile(r'^[ \t]*//@dbstruct_arc[ \t]+(.*)$', re.M)
 EXTRACT_RE = re.compile(r'/\*@\s*extract\s+(.*?)@\*/', re.S)
 INCLUDE_RE = re.compile(r'^[ \t]*//@include[ \t]+(\S+)[ \t]*$', re.M)
 
@@ -979,6 +989,7 @@ def generate(tmpl_path, out_path):
     text = text.replace('"/repo/', '"' + REPO + '/')
     text = STUB_RE.sub(lambda m: gen_stub(m.group(1), m.group(2)), text)
     text = ITEM_RE.sub(lambda m: gen_item(m.group(1), m.group(2), m.group(3), m.group(4)), text)
+    text = DBSTRUCT_ARC_RE.sub(lambda m: '// T6: generated from src/fixtures/mod.rs (inner Arc kept)\n' + gen_dbstruct(m.group(1).split(), True), text)
     text = DBSTRUCT_RE.sub(lambda m: '// T6: generated from src/fixtures/mod.rs\n' + gen_dbstruct(m.group(1).split()), text)
     pieces = []
     pos = 0
